@@ -278,6 +278,11 @@ func (s *Sched) Run(prefix []int) Result {
 	for step := 0; ; step++ {
 		s.settle()
 		acts, lastEnabled := s.enabledActions()
+		if len(acts) == 0 && len(s.Unfinished()) > 0 {
+			// nothing is enabled although threads are unfinished: before calling them blocked for good, look again, slowly
+			quiet.Settle(nil, 10)
+			acts, lastEnabled = s.enabledActions()
+		}
 		if len(acts) == 0 {
 			s.mu.Lock()
 			for _, t := range s.threads {
